@@ -88,4 +88,79 @@ theorem zero_seg_eq_pad (d : List Char) (h : d.all (· = '0') = true) : segCmp (
   rw [this]
   exact strCmp_totalPre.refl _
 
+/-! ### canonicalisation -/
+
+theorem dropTrailingZeros_append_zero (l : List Seg) (z : Seg) (hz : z.isZero = true) :
+    dropTrailingZeros (l ++ [z]) = dropTrailingZeros l := by
+  unfold dropTrailingZeros
+  simp [List.reverse_append, List.dropWhile_cons, hz]
+
+theorem isZero_not_str {z : Seg} (hz : z.isZero = true) : z.isStr = false := by
+  cases z <;> simp_all [Seg.isZero, Seg.isStr]
+
+/-- A trailing zero segment disappears in the canonical form. -/
+theorem canonSegs_append_zero (l : List Seg) (z : Seg) (hz : z.isZero = true) :
+    canonSegs (l ++ [z]) = canonSegs l := by
+  unfold canonSegs
+  simp only [dropTrailingZeros_append_zero l z hz, List.any_append, List.any_cons, List.any_nil,
+    isZero_not_str hz, Bool.or_false]
+
+theorem dropTrailingZeros_append_str (x : List Seg) (t : List Char) (rest : List Seg) :
+    ∃ rest', dropTrailingZeros (x ++ Seg.str t :: rest) = x ++ Seg.str t :: rest' ∧
+      dropTrailingZeros (Seg.str t :: rest) = Seg.str t :: rest' := by
+  -- the scan from the end stops at the string segment at the latest
+  have key : ∀ (pre : List Seg), ∃ rest', dropTrailingZeros (pre ++ Seg.str t :: rest) = pre ++ Seg.str t :: rest' ∧
+      rest' = ((rest.reverse.dropWhile Seg.isZero).reverse) := by
+    intro pre
+    refine ⟨(rest.reverse.dropWhile Seg.isZero).reverse, ?_, rfl⟩
+    unfold dropTrailingZeros
+    simp only [List.reverse_append, List.reverse_cons, List.append_assoc, List.singleton_append]
+    induction rest.reverse with
+    | nil => simp [List.dropWhile_cons, Seg.isZero]
+    | cons y ys ih =>
+      by_cases hy : y.isZero = true
+      · simp only [List.cons_append, List.dropWhile_cons, hy, if_true]; exact ih
+      · simp [List.dropWhile_cons, hy]
+  obtain ⟨r₁, h₁, e₁⟩ := key x
+  obtain ⟨r₂, h₂, e₂⟩ := key []
+  refine ⟨r₁, h₁, ?_⟩
+  simpa [e₁, e₂] using h₂
+
+theorem spanNoStr_append (pre : List Seg) (hpre : ∀ s ∈ pre, s.isStr = false) (t : List Char) (rest : List Seg) :
+    spanNoStr (pre ++ Seg.str t :: rest) = (pre, Seg.str t :: rest) := by
+  induction pre with
+  | nil => simp [spanNoStr, Seg.isStr]
+  | cons p ps ih =>
+    have hp := hpre p List.mem_cons_self
+    have := ih (fun s hs => hpre s (List.mem_cons_of_mem _ hs))
+    simp [spanNoStr, hp, this]
+
+/-- A zero segment directly before the first string segment of a prerelease
+    version disappears in the canonical form ("1.0.a" and "1.a" are the same
+    version). -/
+theorem canonSegs_zero_before_str (pre : List Seg) (hpre : ∀ s ∈ pre, s.isStr = false) (z : Seg)
+    (hz : z.isZero = true) (t : List Char) (rest : List Seg) :
+    canonSegs (pre ++ z :: Seg.str t :: rest) = canonSegs (pre ++ Seg.str t :: rest) := by
+  have hzs := isZero_not_str hz
+  obtain ⟨r₁, h₁, _⟩ := dropTrailingZeros_append_str (pre ++ [z]) t rest
+  obtain ⟨r₂, h₂, h₂'⟩ := dropTrailingZeros_append_str pre t rest
+  have hr : r₁ = r₂ := by
+    obtain ⟨r₃, h₃, h₃'⟩ := dropTrailingZeros_append_str (pre ++ [z]) t rest
+    have : Seg.str t :: r₁ = Seg.str t :: r₂ := by
+      have a := List.append_cancel_left (h₁.symm.trans h₃)
+      rw [← h₃'] at a
+      rw [← h₂', ← a]
+    exact (List.cons.inj this).2
+  subst hr
+  have e₁ : pre ++ z :: Seg.str t :: rest = (pre ++ [z]) ++ Seg.str t :: rest := by simp
+  unfold canonSegs
+  rw [e₁, h₁, h₂]
+  have hpz : ∀ s ∈ pre ++ [z], s.isStr = false := by
+    intro s hs
+    rcases List.mem_append.1 hs with hs | hs
+    · exact hpre s hs
+    · simp at hs; subst hs; exact hzs
+  simp only [spanNoStr_append (pre ++ [z]) hpz, spanNoStr_append pre hpre]
+  simp [List.any_append, Seg.isStr, dropTrailingZeros_append_zero pre z hz]
+
 end ClairModel.Gem
